@@ -1,36 +1,95 @@
 package valsetrig
 
 import (
+	"fmt"
 	"testing"
 
 	"github.com/lianxiangcloud/linkchain/libs/crypto"
 	"github.com/lianxiangcloud/linkchain/types"
 )
 
-// Reproduction against the real code: the proposer after skipping rounds with
-// one IncrementAccum(k) call differs from the proposer reached one round at a
-// time (k calls of IncrementAccum(1)).
+// Direct reproduction against the real code of the C17 finding
+// rotation/split/*: ValidatorSet.IncrementAccum(k) is not k times
+// IncrementAccum(1). consensus.enterNewRound calls
+// validators.IncrementAccum(round - cs.Round) on a copy, so a node that skips
+// from round 0 to round k and a node that walks there one timeout at a time
+// name different proposers for (H, k).
+//
+//	cd /verif/sim && go1.26.8 test -vet=off -tags verif -overlay /verif/build/overlay.json -run TestReproSkipVsStep -v ./rigs/valsetrig/
+func mkSet(powers []int64) *types.ValidatorSet {
+	var vals []*types.Validator
+	for i, p := range powers {
+		pk := crypto.GenPrivKeyEd25519FromSecret([]byte{byte(i)}).PubKey()
+		vals = append(vals, &types.Validator{Address: pk.Address(), PubKey: pk, VotingPower: p})
+	}
+	return types.NewValidatorSet(vals)
+}
+
+func describe(s *types.ValidatorSet) string {
+	out := fmt.Sprintf("proposer=power%d priorities=", s.GetProposer().VotingPower)
+	for _, v := range s.Validators {
+		out += fmt.Sprintf("%d:%d ", v.VotingPower, v.Accum)
+	}
+	return out
+}
+
 func TestReproSkipVsStep(t *testing.T) {
-	mk := func() *types.ValidatorSet {
-		var vals []*types.Validator
-		for i, p := range []int64{1, 3} {
-			pk := crypto.GenPrivKeyEd25519FromSecret([]byte{byte(i)}).PubKey()
-			vals = append(vals, &types.Validator{Address: pk.Address(), PubKey: pk, VotingPower: p})
+	for _, powers := range [][]int64{{1, 3}, {2, 1}, {7, 3, 1, 1, 1, 1}} {
+		found := 0
+		for k := 2; k <= 8 && found < 2; k++ {
+			skip, walk := mkSet(powers), mkSet(powers)
+			skip.IncrementAccum(k)
+			for i := 0; i < k; i++ {
+				walk.IncrementAccum(1)
+			}
+			if describe(skip) != describe(walk) {
+				found++
+				t.Logf("powers %v, round 0 -> %d:\n   skipping : %s\n   walking  : %s", powers, k, describe(skip), describe(walk))
+			}
 		}
-		return types.NewValidatorSet(vals)
-	}
-	for k := 1; k <= 6; k++ {
-		a, b := mk(), mk()
-		a.IncrementAccum(k)
-		for i := 0; i < k; i++ {
-			b.IncrementAccum(1)
-		}
-		pa, pb := a.GetProposer(), b.GetProposer()
-		t.Logf("k=%d bulk proposer power=%d accums=%d,%d  stepwise proposer power=%d accums=%d,%d", k,
-			pa.VotingPower, a.Validators[0].Accum, a.Validators[1].Accum,
-			pb.VotingPower, b.Validators[0].Accum, b.Validators[1].Accum)
-		if pa.VotingPower != pb.VotingPower {
-			t.Logf("  DIFFERENT proposer at k=%d", k)
+		if found == 0 {
+			t.Logf("powers %v: no difference up to 8 rounds", powers)
 		}
 	}
+}
+
+// Smallest example (searched) where not only the proposer but also the
+// priorities differ between skipping and walking.
+func TestReproSkipVsStepPriorities(t *testing.T) {
+	prio := func(s *types.ValidatorSet) string {
+		out := ""
+		for _, v := range s.Validators {
+			out += fmt.Sprintf("%d:%d ", v.VotingPower, v.Accum)
+		}
+		return out
+	}
+	for sum := 2; sum <= 12; sum++ {
+		for a := int64(1); a < int64(sum); a++ {
+			for b := int64(1); a+b <= int64(sum); b++ {
+				c := int64(sum) - a - b
+				powers := []int64{a, b}
+				if c > 0 {
+					powers = append(powers, c)
+				}
+				for pre := 0; pre <= 6; pre++ {
+					for k := 2; k <= 4; k++ {
+						skip, walk := mkSet(powers), mkSet(powers)
+						for i := 0; i < pre; i++ {
+							skip.IncrementAccum(1)
+							walk.IncrementAccum(1)
+						}
+						skip.IncrementAccum(k)
+						for i := 0; i < k; i++ {
+							walk.IncrementAccum(1)
+						}
+						if prio(skip) != prio(walk) {
+							t.Logf("powers %v after %d single rotations, then %d more:\n   one call : %s\n   one by one: %s", powers, pre, k, describe(skip), describe(walk))
+							return
+						}
+					}
+				}
+			}
+		}
+	}
+	t.Log("no example found in the searched range")
 }
